@@ -342,32 +342,106 @@ def rule_upd(repo, tier):
     res = RuleResult('C07.UPD', 'update_parameter splits the step by the sizes of the trainable parameters and applies +step through add_ '
                      'with the same requires_grad filter on both sides; Parameter resolves add_ to LieTensor.add_ (retraction via '
                      'ltype.add_); step() runs under torch.no_grad()', floor=5)
-    f = repo.func(OPT, '_Optimizer.update_parameter')
-    pp = f.pos_params
-    comps = [n for n in ast.walk(f.node) if isinstance(n, (ast.ListComp, ast.GeneratorExp))]
-    split_filter = apply_filter = None
-    add_ok = False
-    for c in comps:
-        g = c.generators[0]
-        flt = [_filter_norm(i, g.target) for i in g.ifs]
-        if isinstance(c.elt, ast.Call) and isinstance(c.elt.func, ast.Attribute) and c.elt.func.attr == 'numel':
-            split_filter = (flt, src(g.iter))
-        if isinstance(c.elt, ast.Call) and isinstance(c.elt.func, ast.Attribute) and c.elt.func.attr in ('add_', 'add', 'sub_'):
-            tgt = g.target.elts[0].id if isinstance(g.target, ast.Tuple) else None
-            dname = g.target.elts[1].id if isinstance(g.target, ast.Tuple) and len(g.target.elts) > 1 else None
-            zi = g.iter.args[0] if isinstance(g.iter, ast.Call) and dotted(g.iter.func) == 'zip' and g.iter.args else None
-            apply_filter = (flt, src(zi) if zi is not None else None)
-            arg = c.elt.args[0] if c.elt.args else None
-            add_ok = c.elt.func.attr == 'add_' and dotted(c.elt.func.value) == tgt and arg is not None and \
-                parities(arg, lambda n: isinstance(n, ast.Name) and n.id == dname) == {0}
-    ok = split_filter is not None and apply_filter is not None and split_filter == apply_filter and split_filter[0] != []
-    res.inst({'function': f.fq, 'split_filter': split_filter, 'apply_filter': apply_filter, 'same': ok, 'adds_plus_step': add_ok}, f.fq)
-    if not ok:
-        res.add(Finding('C07.UPD', f, 'the split sizes and the update loop do not use the same requires_grad filter over the same parameter '
-                        'list (%s vs %s): frozen parameters would receive the wrong slice or be modified' % (split_filter, apply_filter),
-                        construct='filters'))
-    if not add_ok:
-        res.add(Finding('C07.UPD', f, 'parameters are not updated by p.add_(+step slice)', construct='add_'))
+    def seq_desc(fn, e, upto_line):
+        """(root sequence, sorted filters) of a parameter sequence expression: follows `name = [p for p in SEQ if F]` rebindings made earlier"""
+        filters = []
+        for _ in range(6):
+            if isinstance(e, (ast.ListComp, ast.GeneratorExp)) and len(e.generators) == 1 and isinstance(e.elt, ast.Name) and \
+                    isinstance(e.generators[0].target, ast.Name) and e.elt.id == e.generators[0].target.id:
+                g = e.generators[0]
+                filters += [_filter_norm(i, g.target) for i in g.ifs]
+                e = g.iter
+                continue
+            if isinstance(e, ast.Name):
+                last = None
+                for n in ast.walk(fn):
+                    if isinstance(n, ast.Assign) and n.lineno < upto_line and any(isinstance(t, ast.Name) and t.id == e.id for t in n.targets):
+                        if last is None or n.lineno > last.lineno:
+                            last = n
+                if last is not None:
+                    upto_line = last.lineno
+                    e = last.value
+                    continue
+            break
+        return (src(e), tuple(sorted(set(filters))))
+
+    def update_descs(f):
+        """(split descriptor, apply descriptor, filters applied after the zip, add_ ok) of one update_parameter body"""
+        split_d = apply_d = None
+        post = []
+        add_ok = False
+        for n in ast.walk(f.node):
+            # sizes the step is split by
+            if isinstance(n, (ast.ListComp, ast.GeneratorExp)) and len(n.generators) == 1:
+                g = n.generators[0]
+                if any(isinstance(c, ast.Call) and isinstance(c.func, ast.Attribute) and c.func.attr == 'numel' for c in ast.walk(n.elt)) and \
+                        not (isinstance(g.iter, ast.Call) and dotted(g.iter.func) == 'zip'):
+                    base = seq_desc(f.node, g.iter, n.lineno)
+                    split_d = (base[0], tuple(sorted(set(base[1]) | {_filter_norm(i, g.target) for i in g.ifs})))
+            # the (parameter, slice) pairing
+            gens = []
+            if isinstance(n, (ast.ListComp, ast.GeneratorExp)):
+                gens = [(n.generators[0].iter, n.generators[0].target, n.generators[0].ifs, [n.elt])]
+            elif isinstance(n, ast.For):
+                ifs = []
+                body = n.body
+                if len(body) == 1 and isinstance(body[0], ast.If) and not body[0].orelse:
+                    ifs, body = [body[0].test], body[0].body
+                gens = [(n.iter, n.target, ifs, body)]
+            for it, tgt, ifs, body in gens:
+                if isinstance(it, ast.Call) and dotted(it.func) == 'zip' and len(it.args) == 2 and isinstance(tgt, ast.Tuple) and len(tgt.elts) == 2:
+                    adds = [c for b_ in body for c in ast.walk(b_) if isinstance(c, ast.Call) and isinstance(c.func, ast.Attribute) and c.func.attr in ('add_', 'add', 'sub_')]
+                    if not adds:
+                        continue
+                    apply_d = seq_desc(f.node, it.args[0], n.lineno)
+                    post = [_filter_norm(i, tgt.elts[0]) for i in ifs]
+                    c = adds[0]
+                    pn, dn = (tgt.elts[0].id if isinstance(tgt.elts[0], ast.Name) else None), (tgt.elts[1].id if isinstance(tgt.elts[1], ast.Name) else None)
+                    arg = c.args[0] if c.args else None
+                    add_ok = c.func.attr == 'add_' and dotted(c.func.value) == pn and arg is not None and \
+                        parities(arg, lambda x: isinstance(x, ast.Name) and x.id == dn) == {0}
+        return split_d, apply_d, post, add_ok
+
+    descs = {}
+    for q in ('_Optimizer.update_parameter', 'LevenbergMarquardt.update_parameter'):
+        if not repo.has_func(OPT, q):
+            continue
+        f = repo.func(OPT, q)
+        split_d, apply_d, post, add_ok = update_descs(f)
+        if split_d is None or apply_d is None:
+            if q.startswith('_Optimizer'):
+                raise AnalysisError('C07.UPD: the split / apply pair of %s was not recognised' % q)
+            continue
+        aligned = split_d == apply_d
+        frozen_excluded = any('requires_grad' in x for x in split_d[1])
+        descs[q] = split_d
+        res.inst({'function': f.fq, 'step split over': split_d, 'slices paired with': apply_d, 'filter after pairing': post, 'aligned': aligned,
+                  'frozen excluded': frozen_excluded, 'adds_plus_step': add_ok}, f.fq)
+        if not aligned:
+            res.add(Finding('C07.UPD', f, 'the step is split by the sizes of %s but its slices are paired, in order, with %s%s: a filter applied after the '
+                            'pairing does not realign them, so with a frozen parameter ahead of a trainable one the trainable parameter receives the '
+                            'wrong slice' % (split_d, apply_d, (' (then filtered by %s)' % post) if post else ''), construct='filters'))
+        if not frozen_excluded:
+            res.add(Finding('C07.UPD', f, 'parameters with requires_grad=False are not excluded from the update', construct='frozen'))
+        if not add_ok:
+            res.add(Finding('C07.UPD', f, 'parameters are not updated by p.add_(+step slice)', construct='add_'))
+    # the columns of J and the slices of the step range over the same parameters
+    fj = repo.func(OPT, 'RobustModel.flatten_row_jacobian')
+    col = None
+    for n in ast.walk(fj.node):
+        if isinstance(n, (ast.ListComp, ast.GeneratorExp)) and len(n.generators) == 1:
+            g = n.generators[0]
+            if isinstance(g.iter, ast.Call) and dotted(g.iter.func) == 'zip' and isinstance(g.target, ast.Tuple) and len(g.target.elts) == 2:
+                col = tuple(sorted({_filter_norm(i, g.target.elts[1]) for i in g.ifs}))
+    if col is None:
+        raise AnalysisError('C07.UPD: the column blocks of flatten_row_jacobian were not recognised')
+    want = descs.get('_Optimizer.update_parameter', (None, ()))[1]
+    okc = col == want
+    res.inst({'function': fj.fq, 'column blocks kept for': col, 'step slices exist for': want, 'same parameters': okc}, fj.fq)
+    if not okc:
+        res.add(Finding('C07.UPD', fj, 'J keeps a column block for the parameters %s while the step is distributed over the parameters %s: with a frozen '
+                        'parameter the solved step is longer than the split expects (the step raises) and the solve treats the frozen parameter as free'
+                        % (col or 'all', want or 'all'), construct='columns'))
     # MRO of Parameter
     ci = repo.cls(LT, 'Parameter')
     m = repo.find_method(ci, 'add_')
@@ -436,7 +510,21 @@ def rule_keys(repo, tier):
     return res
 
 
-def rules(repo, tier):
+def _rules_core(repo, tier):
     from ..stale import rule_stale
+    from ..effects import rule_pure
     return [rule_sys(repo, tier), rule_corr(repo, tier), rule_damp(repo, tier), rule_upd(repo, tier), rule_keys(repo, tier),
-            rule_stale(repo, 'C07.STALE', [(OPT, 'LevenbergMarquardt.step'), (OPT, 'GaussNewton.step')])]
+            rule_stale(repo, 'C07.STALE', [(OPT, 'LevenbergMarquardt.step'), (OPT, 'GaussNewton.step')]),
+            rule_pure(repo, 'C07.PURE', 'what a step hands to its collaborators stays intact: no linear solver writes into A or b (the LM trial loop solves '
+                      'again after a rejection), no corrector / weight normalisation writes into the residuals, Jacobians or weights it is given',
+                      [('pypose.optim.solver', q + '.forward') for q in ('PINV', 'LSTSQ', 'Cholesky', 'CG')] +
+                      [('pypose.optim.corrector', 'FastTriggs.forward'), ('pypose.optim.corrector', 'Triggs.forward'),
+                       (OPT, 'RobustModel.normalize_RWJ'), (OPT, 'RobustModel.flatten_row_jacobian')])]
+
+
+def rules(repo, tier):
+    from ..memo import rule_memo
+    return list(_rules_core(repo, tier)) + [rule_memo(repo, 'C07.MEMO', 'history independence: nothing computed from the contents of a tensor argument is kept '
+                                                      'under the identity, address or version of that tensor, in module-level storage, or published from a generator '
+                                                      'before it is complete - a later call with the same object and other contents must not be answered from it',
+                                                      ['pypose.optim.optimizer', 'pypose.optim.solver', 'pypose.optim.corrector', 'pypose.optim.functional'], floor=3)]
